@@ -18,6 +18,13 @@
  *          what reached the peer/file == concatenation of the written prefixes.
  *   order: stream operations of one direction complete in submission order.
  *   barrier, closed channel (ECANCELED), cleanup handler count/order, liveness (watchdog).
+ *
+ * Options: --mode=default|read|write|chan|conv|pipe-hangup (pipe-hangup = directed scenario: the
+ * reader of a pipe goes away while a write waits on the full pipe), --pipe-hangup=0 (no vanishing
+ * reader on pipes), --conv-pair=0 (never two dispatch_read in flight on one descriptor),
+ * --eof-gap-us=N (feeder waits N us between its last write and close). The three switches exist
+ * because those scenario classes end the process on the unchanged tree (hang / use-after-free);
+ * the defaults keep them on.
  */
 #include "vf_common.h"
 #include <dispatch/dispatch.h>
@@ -768,7 +775,17 @@ static void check_order(trial_t *t)
 			if (!viol) continue;
 			op_brief(a, ba, sizeof(ba)); op_brief(b, bb, sizeof(bb));
 			int canc = a->err_done == ECANCELED || b->err_done == ECANCELED;
-			snprintf(k, sizeof(k), zero ? "C14:%s:zero-length-op-completes-out-of-order" : canc ? "C14:%s:ops-complete-out-of-order:cancelled-by-stop" : "C14:%s:ops-complete-out-of-order", dn);
+			/* The done invocation of an operation is posted from its dispose, i.e. only after its last pending
+			 * delivery block has run on the operation's own delivery queue, while the stream already serves the
+			 * next operation: when the earlier operation received progress deliveries, a later operation's done
+			 * can overtake it on the handler queue although the bytes were transferred in order. Known library
+			 * limitation (K6), keyed separately; an inversion where the earlier operation had nothing but its done
+			 * invocation cannot come from that mechanism and is reported under the plain key. */
+			/* (with an interval set every operation also owns a timer source whose cancellation must finish
+			 * before the dispose, which delays the done invocation in the same way) */
+			int pending = (a->ninv >= 2 || t->interval) && a->err_done == 0 && b->err_done == 0;
+			snprintf(k, sizeof(k), zero ? "C14:%s:zero-length-op-completes-out-of-order" : canc ? "C14:%s:ops-complete-out-of-order:cancelled-by-stop" :
+					pending ? "C14:%s:ops-complete-out-of-order:earlier-op-still-delivering" : "C14:%s:ops-complete-out-of-order", dn);
 			VIOL(t, k, "stream channel, serial handler queue: %s was submitted before %s, but the later operation's done invocation returned before the earlier one's began", ba, bb);
 			return;
 		}
@@ -786,12 +803,12 @@ static void check_barriers(trial_t *t)
 			op_t *op = &t->ops[j];
 			if (op->kind == K_BARRIER || op->chan != bar->chan || j == i) continue;
 			t->o_bchecked++;
-			if (j < i && op->last_end > bar->bstart) {
-				op_brief(op, b, sizeof(b));
-				VIOL(t, op->req && !op->post ? "C14:barrier:overlaps-earlier-op" : "C14:barrier:overlaps-earlier-op:zero-length-or-rejected-op",
-						"barrier #%d ran during stamps %llu..%llu although %s, scheduled before it, had a handler invocation that returned only at stamp %llu (%s)",
-						bar->seq, (unsigned long long)bar->bstart, (unsigned long long)bar->bend, b, (unsigned long long)op->last_end,
-						op->done_start > bar->bstart ? "its done invocation had not even started" : "its done invocation was still running");
+			if (j < i) {
+				/* Not judged: io.h promises that earlier operations have *completed* (their I/O on the descriptor is
+				 * over) before the barrier block is enqueued; their handler invocations are client notifications
+				 * enqueued on other queues and may still be running. A first version of this check demanded that
+				 * they had returned and fired on the unchanged tree: the rule asked for more than the property. */
+				(void)b;
 			} else if (j > i && op->first_start < bar->bend) {
 				op_brief(op, b, sizeof(b));
 				VIOL(t, "C14:barrier:later-op-started-early", "barrier #%d ran during stamps %llu..%llu but %s, scheduled after it, had its first handler invocation at stamp %llu",
